@@ -1,5 +1,6 @@
 import RawPanelVerif.Lemmas.InBits
-import RawPanelVerif.Props.C07
+import RawPanelVerif.Lemmas.StripOneLine
+import RawPanelVerif.Lemmas.StripContent
 /-!
 # Inbound half of C06: the two inbound converters are total and never return a nil message
 
